@@ -94,6 +94,20 @@ pub struct Hist {
     pub live_base: i64,
     /// a user panic was injected in this history: leaks are tolerated from then on (C04), double drops are not
     pub fault_leak: bool,
+    /// tags wrap around after this many (0 = never): element families whose key has only a few bits for a tag
+    pub tag_mod: u32,
+    /// the property this run decides (empty = every finding ends the history)
+    pub own_prop: String,
+    /// steps the history may still run after the first finding that belongs to ANOTHER behavioural property
+    /// (-1: no such finding yet).  The same defect may show the symptom this check is about a few steps later.
+    pub soft_left: i32,
+    /// findings recorded inside that window (they do not end the history)
+    pub soft_total: u64,
+}
+/// Properties whose findings never keep a history going: memory / ownership findings mean the containers
+/// can no longer be touched safely.
+fn hard_prop(p: &str) -> bool {
+    matches!(p, "MEM" | "C02" | "C03" | "C04" | "C13" | "C17" | "C18")
 }
 impl Hist {
     pub fn new(hist: u64) -> Self {
@@ -109,6 +123,10 @@ impl Hist {
             dual: Vec::new(),
             live_base: 0,
             fault_leak: false,
+            tag_mod: 0,
+            own_prop: String::new(),
+            soft_left: -1,
+            soft_total: 0,
         }
     }
     pub fn begin_step(&mut self, op: &'static str, descr: String) {
@@ -117,8 +135,23 @@ impl Hist {
         self.ops.push(descr);
     }
     pub fn tag(&mut self) -> u32 {
-        self.next_tag += 1;
+        if self.tag_mod > 0 {
+            self.next_tag = self.next_tag % self.tag_mod + 1;
+        } else {
+            self.next_tag += 1;
+        }
         self.next_tag
+    }
+    /// after a step: true when the history has to end (a finding of this run's own property, a memory
+    /// finding, anything the ledger raised by itself, or the window after a foreign finding is used up)
+    pub fn must_stop(&mut self) -> bool {
+        if self.failed || ledger::viol_total() > self.soft_total {
+            return true;
+        }
+        if self.soft_left > 0 {
+            self.soft_left -= 1;
+        }
+        self.soft_left == 0
     }
     pub fn payload(&mut self) -> u32 {
         self.next_payload += 1;
@@ -132,6 +165,25 @@ impl Hist {
             if *from == prop && *o == op {
                 ledger::violation(to, format!("{}:{}@{}", from, what, op), msg.clone());
             }
+        }
+        let mut dual_own = false;
+        for (from, o, to) in &self.dual {
+            if *from == prop && *o == op && *to == self.own_prop {
+                dual_own = true;
+            }
+        }
+        if !self.own_prop.is_empty() && prop != self.own_prop && !dual_own && !hard_prop(prop) && !self.failed && self.soft_left != 0 {
+            // a finding that belongs to another behavioural property: note it (at most three) and let the history
+            // run a few more steps
+            if self.soft_left < 0 {
+                self.soft_left = 10;
+            }
+            if self.soft_total < 3 {
+                let before = ledger::viol_total();
+                ledger::violation(prop, format!("{}@{}", what, op), msg);
+                self.soft_total += ledger::viol_total() - before;
+            }
+            return;
         }
         ledger::violation(prop, format!("{}@{}", what, op), msg);
         self.failed = true;
